@@ -10,7 +10,7 @@ Import ListNotations.
 From FGV Require Import Base.Util Base.Bond Base.NX Base.NXFacts Model.Permute Model.Match Model.FGTree Model.FGDefaultCfg
                         Spec.Embedding Spec.EmbSearch Spec.FGCheck Spec.FGSpec
                         Proofs.SortFacts Proofs.KeyOrder Proofs.FGTreeProofs Proofs.FGCheckProofs Proofs.FGDefaultTree Proofs.FGDefaultFacts
-                        Spec.QuerySpec Proofs.EmbeddingOrder Proofs.SubgroupSem Proofs.EmbSearchProofs Proofs.KeyStrict Proofs.ConcreteHasse Proofs.RefBridge.
+                        Spec.QuerySpec Proofs.EmbeddingOrder Proofs.SubgroupSem Proofs.EmbSearchProofs Proofs.KeyStrict Proofs.ConcreteHasse Proofs.RefBridge Proofs.QueryClosed.
 
 (** * Abstract part: any item type, is_subgroup abstracted to [sub] with Boolean value [subb]
       on the list, [kltb a b] = "order_id a < order_id b".
@@ -224,6 +224,31 @@ Theorem C07_concrete : forall ic,
             hasse_of (subb_of (Some "R"%string) ic) cfg_ltb l t.
 Proof. exact configs_hasse_concrete. Qed.
 
+(** * Premise-free forms (Proofs/QueryClosed.v discharges MatcherComplete / MatcherSound / IsEmbSound /
+      IsEmbComplete from the theorems of the matcher's owners) *)
+Theorem C07_is_subgroup_sem_closed : forall w ic a b t,
+  cfg_parsed a -> cfg_parsed b ->
+  is_subgroup (mk_mapper w ic []) a b = Good t ->
+  (t = true <-> StrictlyBelow w ic (fg_pattern a) (fg_pattern b) /\ ~ vetoed w ic a b).
+Proof. exact is_subgroup_sem_closed. Qed.
+
+Theorem C07_concrete_closed : forall ic (l : list fgconfig),
+  NoDup (map order_key l) ->
+  (forall c, In c l -> cfg_plain ic c) ->
+  (forall a b, In a l -> In b l -> exists t, is_subgroup (mk_mapper (Some "R"%string) ic []) a b = Good t) ->
+  (forall a b, In a l -> In b l ->
+     (subb_of (Some "R"%string) ic a b = true <-> StrictlyBelow (Some "R"%string) ic (fg_pattern a) (fg_pattern b))) /\
+  exists t, build_config_tree_from_list (mk_mapper (Some "R"%string) ic []) l = Good t /\
+            hasse_of (subb_of (Some "R"%string) ic) cfg_ltb l t.
+Proof. exact configs_hasse_concrete_closed. Qed.
+
+Theorem C07_reference_is_embedding_order_closed : forall w ic (a b : fgconfig),
+  wf (fg_pattern a) -> (forall ap, In ap (fg_anti a) -> wf ap) ->
+  (ref_sub w ic a b = true <->
+   Embeds w ic (fg_pattern a) (fg_pattern b) /\
+   forall ap, In ap (fg_anti a) -> ~ Embeds w ic ap (fg_pattern b)).
+Proof. exact ref_sub_exact_closed. Qed.
+
 (** * Non-vacuity: the three-pattern list of test_insert_child_between, given out of order *)
 Open Scope string_scope.
 Open Scope Z_scope.
@@ -268,3 +293,6 @@ Print Assumptions C07_is_subgroup_sem.
 Print Assumptions C07_key_strict.
 Print Assumptions C07_concrete_from_key_strict.
 Print Assumptions C07_concrete.
+Print Assumptions C07_is_subgroup_sem_closed.
+Print Assumptions C07_concrete_closed.
+Print Assumptions C07_reference_is_embedding_order_closed.
